@@ -278,14 +278,17 @@ def configs(tier, seed):
         systems = list(SYSTEMS)
         prios = list(PRIOS)
         cap = 400000
+        # every one of the 5! rank patterns of the second objective against the first
         family(out, seed, ["g1rf2m4", "g1rf3m4"], (1,), ["default", "nd1", "fix1", "lin"], T=5, W=2, n_tab=0,
                cap=cap, tabs="all")
-        family(out, seed, systems, (1,), prios, T=5, W=3, n_tab=2, cap=cap)
-        family(out, seed, systems, (1,), prios, T=6, W=2, n_tab=4, cap=cap)
-        family(out, seed, systems, (2,), prios, T=4, W=2, n_tab=2, cap=cap)
-        family(out, seed, ["g1rf2m4", "g1rf3m4", "g2rf2m5", "g2rf3m4"], (2,), ["default", "fix1", "linw"],
-               T=4, W=3, n_tab=1, cap=cap)
-    T, W, cap = (4, 2, 20000) if quick else (5, 3, 400000)
+        family(out, seed, systems, (1,), prios, T=6, W=2, n_tab=1, cap=cap)
+        family(out, seed, ["g1rf2m4", "g1rf3m4", "g2rf2m5", "g2rf3m4", "g1rf2m5s"], (1,), prios, T=4, W=3, n_tab=1,
+               cap=cap)
+        family(out, seed, ["g1rf2m4", "g1rf3m4", "g2rf2m5", "g1rf2m8"], (1,), ["default", "ndNL", "fix1", "linw"],
+               T=5, W=3, n_tab=1, cap=cap)
+        family(out, seed, systems, (2,), prios, T=4, W=2, n_tab=1, cap=cap)
+        family(out, seed, ["g1rf2m4", "g1rf3m4", "g2rf2m5"], (2,), ["default", "linw"], T=4, W=3, n_tab=1, cap=cap)
+    cap = 20000 if quick else 400000
     ci = len(out)
     # single objective (the Pareto order degenerates to a total order) and three objectives
     for sname in (["g1rf2m4"] if quick else ["g1rf2m4", "g1rf3m4", "g1rf2m8"]):
@@ -295,7 +298,7 @@ def configs(tier, seed):
         for prio in ("default", "fix", "lin"):
             for mode in ("m", "M"):
                 p = rotate(all_perms(T1), seed * 3 + ci)
-                sel = [(4, 0, 1, 2, 3)] + [tuple(x) for x in p[:(1 if quick else 6)]]
+                sel = [(4, 0, 1, 2, 3)] + [tuple(x) for x in p[:(1 if quick else 4)]]
                 for j, p0 in enumerate(sel):
                     out.append(dict(sys=sname, brackets=1, prio=prio, mode=mode, k=1, T=T1, W=1 if j == 0 else 2,
                                     perms=level_perms(T1, 1, levels, (p0,), j), max_states=cap, seed=seed))
@@ -303,9 +306,10 @@ def configs(tier, seed):
         for prio in ("default", "ndNL", "fix1", "linw"):
             for mode in ("mMm", "MmM", "none"):
                 p = rotate(all_perms(4), seed * 3 + ci)
-                for j in range(1 if quick else 3):
+                for j in range(1):
                     trip = (tuple(range(4)), p[j], p[(7 * j + 5) % len(p)])
-                    out.append(dict(sys=sname, brackets=1, prio=prio, mode=mode, k=3, T=4, W=2 if quick else 3,
+                    out.append(dict(sys=sname, brackets=1, prio=prio, mode=mode, k=3, T=4,
+                                    W=3 if (not quick and mode == "none") else 2,
                                     perms=level_perms(4, 3, levels, trip, j), max_states=cap, seed=seed))
                 ci += 1
     return out
@@ -323,6 +327,7 @@ def run(tier, seed):
         etasks += c19_enum.tasks_for(vals, d, n, spec)
     cfgs = configs(tier, seed)
     # one pool for both parts (load balance): tag the tasks
+    cfgs.sort(key=lambda c: -(c["T"] * (10 if c["W"] >= 3 else 1) * (6 if c["brackets"] > 1 else 1)))  # big first
     jobs = [("mo", c) for c in cfgs] + [("enum", t) for t in etasks]
     outs = pmap(_job, jobs)
     seen_enum = {}
@@ -362,10 +367,12 @@ def run(tier, seed):
 
 
 def _job(j):
+    import time
     kind, t = j
-    if kind == "mo":
-        return task(t)
-    return c19_enum.task(t)
+    c0 = time.process_time()
+    out = task(t) if kind == "mo" else c19_enum.task(t)
+    out[0].extra["cpu_s_" + kind] = time.process_time() - c0   # diagnostic only (sizing of the tiers)
+    return out
 
 
 def replay(data):
